@@ -162,7 +162,10 @@ var c45Values = []string{"0", "1", "2"}
 // Templated values: "$labels"/"$value" are only defined by the preamble Prometheus prepends at
 // expansion time, so parsing them stand-alone fails (⇒ templated); ".Labels.x" and literal actions
 // parse fine and are recognised by their node type.
-var c45Templated = []string{"{{ $labels.x }}", "p-{{ $labels.y }}", "{{ $value }}", "{{ $labels.a }}1", "{{ .Labels.x }}", "1{{ .Value }}", "{{ \"0\" }}", "{{ .Labels.a }}"}
+// Control structures ({{ if }}, {{ with }}, {{ range }}) parse stand-alone too and contain no top-level
+// action node; they are templates all the same.
+var c45Templated = []string{"{{ $labels.x }}", "p-{{ $labels.y }}", "{{ $value }}", "{{ $labels.a }}1", "{{ .Labels.x }}", "1{{ .Value }}", "{{ \"0\" }}", "{{ .Labels.a }}",
+	"{{ if gt .Value 10.0 }}1{{ else }}2{{ end }}", "{{ with .Labels.x }}1{{ end }}", "a{{ range .Labels }}1{{ end }}", "{{ if .Value }}{{ end }}1"}
 
 func genC45Labels(rt *rapid.T) []mLabel {
 	var out []mLabel
